@@ -97,9 +97,18 @@ def check_set_all(ctx, rule, inst, fn, node, want, flagged, blocks, allow_guard=
                 % ", ".join(bad_exits))
         ok = False
     seen = {}
+    guarded = {}
     for arm in m["arms"]:
         vp, b = e4.arm_variant(arm)
-        seen[vp] = (arm, b)
+        if arm.get("guard") is not None and not (allow_guard and allow_guard(arm)):
+            guarded.setdefault(vp, arm)        # `Variant(l) if cond => ..`: when cond fails the layer falls through to a later arm
+            continue
+        seen.setdefault(vp, (arm, b))
+    for vp, arm in guarded.items():
+        if vp in flagged or vp in blocks:
+            ctx.bad(rule, "%s:%s" % (inst, vp.split("::")[-1]), "flag-set-only-under-guard:" + short(pretty(arm["guard"]), 40), c.loc(fn, arm["body"]),
+                    "the arm for %s only applies when `%s`; otherwise the layer's flag is left as it was" % (vp, short(pretty(arm["guard"]), 80)))
+            ok_guard = False
     for vp, adt in list(flagged.items()) + list(blocks.items()):
         sub = "%s:%s" % (inst, vp.split("::")[-1])
         if vp not in seen:
